@@ -249,7 +249,7 @@ inductive Val where
   | carr (n len : Nat) (b : Buf)  -- Fortran `character(len=len) :: x(n)`: n*len contiguous bytes
   | ptrs (l : List Buf)  -- `char **`: the blocks the pointers designate
   | vstr (l : List (List Nat))  -- std::vector<std::string>
-  | rec (fields : List Int)  -- a struct value (its members)
+  | stru (fields : List Int)  -- a struct value (its members)
   | ref (addr : Nat) (a : List Int)  -- a C pointer / Fortran pointer: address and the elements found there
   | null
   deriving Repr, DecidableEq
@@ -582,7 +582,7 @@ def execOp (o : Op) (s : St) : Res St :=
     -- (variable 16).  `&` on a by-value struct, nothing on a pointer: `d` designates the caller's struct;
     -- `&` on a pointer parameter would hand over the bytes of the pointer itself
     match s.int 15, s.int 16, s.get src with
-    | some a, some isPtr, some (.rec _) =>
+    | some a, some isPtr, some (.stru _) =>
       if (a == 1) != (isPtr == 1) then .ok { s with alias := assocSet s.alias d (s.resolve src) } else .oob
     | _, _, _ => .oob
   | .ifEmpty _ | .else_ | .endIf => .ok s
